@@ -16,4 +16,4 @@ mkdir -p "$WORKDIR/bin" "$WORKDIR/overlay"
 "$WORKDIR/bin/looptick" -repo "$REPO" -out "$ov" -rt "$VERIF/rt/vbudget/vbudget.go" \
   formats/ply formats/stl formats/spz formats/splat formats/pts 2> "$ov.log" || { cat "$ov.log" >&2; exit 1; }
 cd "$VERIF/harness"
-go build $MODFLAG -overlay "$ov/overlay.json" -o "$out" ./cmd/c14
+go build -trimpath $MODFLAG -overlay "$ov/overlay.json" -o "$out" ./cmd/c14
